@@ -1,12 +1,18 @@
 import Lean.Data.Json
 import NGF.Model.Ownership
 import NGF.Model.OwnershipJudge
+import NGF.Model.OwnershipLeader
+import NGF.DriverLib.C17Frag
 import NGF.Model.Proto
 /-
 Driver entry for C17. Every input line is one JSON object written by harness/c17:
   {"k":kind,"id":n,"in":<flat cluster state>,"obs":<summary of the real graph>,"j":<real outputs>}
   `model` : run `buildGraph`/`targets` on "in" (route oracle fields `valid`,`svcs`), print the summary as JSON
   `clsmodel` : lines {"k":"clsev","ctlr","start","events"}: run `runClasses` (class store under the watch predicate)
+  `fragx` : lines {"k":"fragx","a":{flat,in},"b":{flat,in},"filesEq"}: in-fragment pair (s, s ∪ X): the hypotheses of
+            `noninterference_foreign_set` (`hypsB`) on the decoded `ScenarioR`s, the conclusion on the model, the verdict
+            on the real files (DriverLib/C17Frag.lean)
+  `leadmodel` : lines {"k":"leadops","batches","enableAfter"}: `mkBatches`/`opsOf` through `Leader.run`
   `judge` : evaluate the property (`NGF.Ownership.judge`) on "in" (route services from the spec) and "j":
             `ok` | `skip <why>` | `fail <clause> <detail>`
 Undecodable input answers `bad-op`.
@@ -55,7 +61,8 @@ def parseRoute (spec : Bool) (j : Json) : Except String Route := do
   let v ← reqBool j "valid"
   return { kind := ← parseKind (← reqStr j "kind"), nn := ⟨← reqStr j "ns", ← reqStr j "name"⟩,
            parents := ← (← reqArr j "parents").mapM parsePRef,
-           valid := spec || v, svcs := svcs }
+           valid := spec || v, svcs := svcs,
+           rulesReached := spec || boolOr j "rulesReached" true, sfRefs := ← strArr j "sfRefs" }
 
 def parseTRef (j : Json) : Except String TRef := do
   return ⟨← reqStr j "group", ← reqStr j "kind", ← reqStr j "name"⟩
@@ -107,6 +114,7 @@ def modelLine (line : String) : String :=
       ("policies", strs (c.policies.map showPolicyG)),
       ("svcs", strs (c.refSvcs.map NN.str)),
       ("btps", strs (c.btps.map NN.str)),
+      ("refsnips", strs (c.refSnippets.map NN.str)),
       ("targets", strs ((targets c).map Target.key))]).compress
 
 /-! ### judge mode -/
@@ -122,7 +130,8 @@ def parseJIn (j : Json) : Except String JIn := do
            runsA := ← strArr d "runsA", runsB := ← strArr d "runsB", runsF := ← strArr d "runsF",
            srunsA := ← strArr d "srunsA", srunsB := ← strArr d "srunsB", srunsF := ← strArr d "srunsF",
            kept := ← (← reqArr d "kept").mapM parseKept, nochange := boolOr d "nochange" false,
-           panic := strOr d "panic" }
+           panic := strOr d "panic", phase := strOr d "phase", reqs := ← strArr d "reqs",
+           writes := ← strArr d "writes" }
 
 def judgeLine (line : String) : String :=
   match Json.parse line >>= parseJIn with
@@ -154,6 +163,28 @@ def clsLine (line : String) : String :=
     (Json.mkObj [("cluster", strs (r.1.map fun c => c.name ++ "=" ++ c.ctlr)),
                  ("store", strs (r.2.map fun c => c.name ++ "=" ++ c.ctlr))]).compress
 
+/-! ### leadmodel mode: the model's requests (`targets ∘ buildGraph`, split by `groupOf`) through the model of the
+leader-aware updater (`Leader.run`): line {"k":"leadops","batches":[<flat state of every batch that rebuilt the
+graph>],"enableAfter":n}; answer: the targets written by every operation (two `UpdateGroup` per batch, `Enable`
+after the n-th batch) -/
+
+def leadLine (line : String) : String :=
+  match (do
+    let j ← Json.parse line
+    let bs ← (← reqArr j "batches").mapM (parseState false)
+    pure (bs, ← reqNat j "enableAfter")) with
+  | .error _ => "bad-op"
+  | .ok (bs, n) =>
+    let cfg : Cfg := (bs.head?.map (·.1)).getD ⟨"", ""⟩
+    let sts := bs.map (·.2)
+    let batches := mkBatches cfg 0 sts
+    let tbl := reqTable cfg sts
+    let ops := opsOf (batches.take n) ++ Leader.Op.enable [] :: opsOf (batches.drop n)
+    let outs := Leader.run Leader.init ops
+    (Json.mkObj [("outs", Json.arr (outs.map fun
+      | .writes ws => strs ((ws.flatMap (·.2)).map fun q => (tgtOf tbl q).key)
+      | .panic => Json.str "panic").toArray)]).compress
+
 def driver (args : List String) : IO UInt32 := do
   let stdin ← IO.getStdin
   let stdout ← IO.getStdout
@@ -161,6 +192,8 @@ def driver (args : List String) : IO UInt32 := do
   | ["model"] => NGF.Proto.forEachLine stdin fun l => stdout.putStrLn (modelLine l)
   | ["judge"] => NGF.Proto.forEachLine stdin fun l => stdout.putStrLn (judgeLine l)
   | ["clsmodel"] => NGF.Proto.forEachLine stdin fun l => stdout.putStrLn (clsLine l)
+  | ["leadmodel"] => NGF.Proto.forEachLine stdin fun l => stdout.putStrLn (leadLine l)
+  | ["fragx"] => NGF.Proto.forEachLine stdin fun l => stdout.putStrLn (NGF.C17Frag.fragxLine l)
   | _ => IO.eprintln "usage: C17 model|judge"; return 2
   return 0
 
